@@ -128,6 +128,10 @@ def _det_cases():
 
 def cases(rng, tier):
     yield from _det_cases()
+    # every open-controlled gate (exactly diagonal ones among them: crz, cp, cz, cs, csdg with ctrl_state=0), whatever the seed
+    # (seeded change C02-10 was caught at seed 0 only, through the three that `rng.sample` happened to pick)
+    for g_ in OPEN:
+        yield ("kak", {"gate": "open:" + g_, "params": [0.7 + 0.1 * OPEN.index(g_)] if g_ in FAMS else [], "always_oracle": True})
     reps = 6 if tier == "quick" else 60
     for name in FAMS:
         for th in gen.SPECIAL_ANGLES + [rng.uniform(-8 * math.pi, 8 * math.pi) for _ in range(reps)]:
